@@ -411,6 +411,13 @@ impl<'me> ClaimGuard<'me> {
             ..
         } = state;
 
+        #[cfg(feature = "salsa_verif")]
+        crate::verif::trace(|| crate::verif::TraceOp::Release {
+            by: crate::verif::me(),
+            key: crate::verif::key(self.database_key_index()),
+            result: format!("{wait_result:?}"),
+        });
+
         if !anyone_waiting {
             return;
         }
